@@ -1,6 +1,7 @@
 import PoxModel.Base.Layout
 /-! Generic theorems about `Base/Layout`: `decode_encode` (lossless round trip for every layout, every well-formed
     record, in front of any following bytes), `encode_length`, `lenfield_exact`.  Core only. -/
+set_option linter.unusedSimpArgs false
 namespace Pox.Layout
 open Pox
 
